@@ -25,3 +25,4 @@ import SJ.Props.C01Ap
 #print axioms SJ.Props.C01Ap.c01_ap_accepts_iff_partial
 #print axioms SJ.Props.C01Ap.c01_ap_sound
 #print axioms SJ.Props.C01Ap.c01_ap_accepts_iff
+#print axioms SJ.Props.C01Ap.c01_ap_accepts_iff_run
